@@ -10,4 +10,12 @@ let run_case (toks : string list) : string option =
   | ["cfgmap"; want] -> Some want
   (* a run that cannot start: error returned and visible (no model behind it: the oracle decides) *)
   | ["startup"; _] -> Some "err=1 visible=1 after_clear=1"
+  (* the real platform socket: the line lists what select(2) did per call of is_readable (t = timed out with nothing ready, r = one
+     descriptor ready, i = interrupted by a signal, e<errno> = failed); the model answers what is_readable returns for each *)
+  | ["platform"; _what; sels] ->
+    let sel = function
+      | "t" -> SelCount Z0 | "r" -> SelCount (z_of_int 1) | "i" -> SelErrno eINTR
+      | s -> SelErrno (zi (String.sub s 1 (String.length s - 1))) in
+    let out = function Ok true -> "ready" | Ok false -> "nothing" | Err (EIo k) -> "err:" ^ zs k | _ -> "err" in
+    Some (String.concat "," (List.map out (waits (List.map sel (split_on ',' sels)))))
   | _ -> None
